@@ -14,7 +14,7 @@ RULE = (
     "every interleaving position, an extra open_run of a key that is open at that point (the plan logs and swallows the rejection); "
     "keys assigned by NESTED set_run_key_wrapper calls for every ordered pair of distinct keys from {'k1','k2',0,'',(),False,1,0.0} (inner run inside the open outer run); pause->resume at every loop position of every interleaving, suspension on 10 of them (thorough: all, and two interruptions on 4). "
     "Oracle: per run DOCSTREAM and SEQNUM on its own documents, every event of run k carries only detector k's keys and values, "
-    "no document references another run, the data per (run, seq_num) equal the uninterrupted execution; a duplicate open_run is "
+    "no document references another run, the data per (run, seq_num) equal the uninterrupted execution and no call raises anything but RunEngineInterrupted; a duplicate open_run is "
     "answered with IllegalMessageSequence at that very yield and the runs' documents are those of the plan without the duplicate; "
     "non-trivial = both runs open at some moment and (an interruption took effect or a duplicate open was attempted)"
 )
@@ -118,6 +118,13 @@ def oracle(scn, obs, ref, schedule):
             b = [_canon_run(r) for r in runs_of(_main_docs(ref))]
             if a != b:
                 out.append(("runs-differ-from-uninterrupted", f"{a} vs {b}"))
+        if not ok_calls and not schedule.get("faults") and all(r == "yes" for _k, _i, r in engine.interruptions(obs)):
+            # resumable interruptions alone never make a call fail (e.g. a rewind replaying messages into a run
+            # that has been closed meanwhile); the uninterrupted execution of these plans raises nothing
+            bad = next(c for c in obs.calls if c["exc"] is not None and type(c["exc"]).__name__ != "RunEngineInterrupted")
+            if all(c["exc"] is None for c in ref.calls):
+                infl = engine.inflight_commands(obs)
+                out.append((f"call-raised-after-interruption:{type(bad['exc']).__name__}" + (f":inflight-{infl[0]}" if infl else ""), f"{bad['name']}() raised {type(bad['exc']).__name__}: {str(bad['exc'])[:140]}"))
     return out
 
 
